@@ -80,7 +80,15 @@ class HTTPConnection(Mapping[str, Any], MoreInfoFromHeaderMixin):
         """
         The full URL of this request.
         """
-        return URL(scope=self._scope)
+        try:
+            url = URL(scope=self._scope)
+            url.port  # raises ValueError unless absent or a number in 0-65535
+        except ValueError:
+            # a Host header that is no host[:port], a query string that is not UTF-8
+            raise HTTPException(
+                400, content="Invalid Host header or request target"
+            ) from None
+        return url
 
     @cached_property
     def path_params(self) -> Dict[str, Any]:
